@@ -148,7 +148,12 @@ CLAIMS.update({
          "index operations next to ONE lister on a warm index are serializable under every schedule - a serial run of the real "
          "programs gives the same answers (a listing up to the order of its items), lookups and listing afterwards "
          "(ls_among_writers_serializable), with the pair and three-operation shapes of the quantifier as corollaries "
-         "(ls_linearizable_insert/delete, ls_insert_serial, ls_two_writers_serializable). Tie: 6-12 real processes (sync+async API, both runtimes) hammering one cache with read/record/content "
+         "(ls_linearizable_insert/delete, ls_insert_serial, ls_two_writers_serializable). THE TWO-STEP READ (Lemmas/LinearizeRead): a "
+         "keyed read next to an index insertion / removal, next to remove_hash of any address, next to a WHOLE keyed writer: the reader "
+         "answers as alone before or alone after; reader + insertion + remove_hash: one of four serial orders explains all three "
+         "answers. TWO WHOLE MUTATORS (Lemmas/TwoWriters): writer || remove_hash, writer || writer (same key, same bytes included), "
+         "writer || index operation, writer || writer || remove_hash: after every schedule the cache is healthy, no temp file is "
+         "left, answers and abstract cache are those of a serial order. Tie: 6-12 real processes (sync+async API, both runtimes) hammering one cache with read/record/content "
          "monitors; strace check that an index insert is ONE write(2) on an O_APPEND descriptor (also multi-MiB); OBSERVER SWEEP: "
          "a writer / remover stopped on entry to each of its mutating system calls, every observer (lookup, read, list, "
          "exists, read_hash; sync+async) must answer as before or as after the operation.",
@@ -156,8 +161,9 @@ CLAIMS.update({
          "interleaving (crashes/faults of a single writer: C03/C13); kernel atomicity of write(O_APPEND) and rename is "
          "assumed; temp names are modelled as a monotone counter (tempfile's random names: fresh by retry-on-EEXIST). "
          "Linearizability of RESULTS is proved for the index operations (insert / delete / find: one global order) and for ONE "
-         "lister next to them on a warm index (the cold-cache lister is known finding F23); the two-step `read` (index, then "
-         "content) is covered by the per-bucket whole-record snapshot and the content validity theorems only - four processes (two listers, two inserters into different buckets) can produce listings "
+         "lister next to them on a warm index (the cold-cache lister is known finding F23); the two-step `read` and pairs / triples of whole mutators are proved in "
+         "the 2-3 operation shapes of the quantifier (two writers of one key: no digest collision between their data; content "
+         "paths that are symlinks excluded) - four processes (two listers, two inserters into different buckets) can produce listings "
          "that fit no serial order, which is outside C07's quantifier (2-3 operations).",
     technique="Lean 4 proof (invariants over all interleavings) + multi-process stress + syscall skeleton"),
  "C08": dict(
